@@ -49,6 +49,11 @@ def configs(tier):
         C[nm] = A.to_spec(A._b(crop=ck, soil="Clay", iwc=iwc, word=word, win="w1"))
     C["waterlogged_clay_full_length_wheat"] = A.catalogue_spec("Wheat", word="wet", soil="Clay", iwc="FC", planting="10/01", start="2001/10/01", end="2002/09/20")
     C["waterlogged_clay_full_length_maize_table"] = A.catalogue_spec("Maize", word="showers", soil="Clay", iwc="FC", gw="0.8", dz="deep30")
+    # thresholds handed over as a pandas Series with permuted integer labels (positions count, whenever they are read)
+    for nm, kind in (("smt_series_permuted_labels", "permuted"), ("smt_series", "plain")):
+        s = A.to_spec(A._b(crop="maize.2", win="w2", word="dry", irr="smt", iwc="Pct50"))
+        s["irr"] = {"method": 1, "kw": {"SMT": [20, 40, 60, 80]}, "smt_series": kind}
+        C[nm] = s
     # user lists NOT in chronological order (observations / schedule rows): an initialisation that normalises them may not write half of
     # the result back onto the user's object
     for nm, g in (("unsorted_table_v", {"method": "Variable", "series": [[30, 0.5], [0, 2.4], [9999, 0.5]]}),
